@@ -69,7 +69,11 @@ class DPT2ByteFloat(DPTNumeric):
                 exponent += 1
                 knx_value /= 2
 
-            mantisse = round(knx_value) & 0x7FF
+            mantisse = round(knx_value)
+            if not cls._test_boundaries((mantisse << exponent) / 100):
+                # rounding away from zero would leave the value range - from_knx would reject the payload
+                mantisse = int(knx_value)
+            mantisse &= 0x7FF
             msb = exponent << 3 | mantisse >> 8
             if knx_value < 0:
                 msb |= 0x80
